@@ -240,8 +240,10 @@ def gen_k2like(rng):
     return n, judg, "k2like"
 
 
-def gen_congruence(rng):
-    """In-fragment sets on which the congruence closure has work to do: a type skeleton (words, mappings, dynamic and
+def gen_congruence(rng, share=0.0):
+    """(share > 0: some constructed types use ONE variable in several component positions, e.g. mapping(a => a), so that a
+    component equality relates a variable to two different partners.)
+    In-fragment sets on which the congruence closure has work to do: a type skeleton (words, mappings, dynamic and
     fixed arrays, nested up to depth 3) is instantiated several times over FRESH variables; only the roots of the
     instances are declared equal, so everything below has to be equated by unification itself, level by level.
     Every class holds evidence of one kind only (words may contradict each other)."""
@@ -270,7 +272,8 @@ def gen_congruence(rng):
             if rng.random() < 0.1:
                 judg.append((v, "Any"))
         elif t[0] == "M":
-            a, b = inst(t[1]), inst(t[2])
+            a = inst(t[1])
+            b = a if (rng.random() < share and t[1][0] == "W" and t[2][0] == "W") else inst(t[2])
             judg.append((v, "M:%d:%d" % (a, b)))
         elif t[0] == "D":
             a = inst(t[1])
@@ -282,11 +285,15 @@ def gen_congruence(rng):
     roots = [inst(sk) for _ in range(rng.randrange(2, 5))]
     n = counter[0]
     if n > 40:
-        return gen_congruence(rng)
+        return gen_congruence(rng, share)
     for a, b in zip(roots, roots[1:]):
         judg.append((a, "Eq:%d" % b) if rng.random() < 0.5 else (b, "Eq:%d" % a))
     rng.shuffle(judg)
-    return n, judg, "congruence"
+    return n, judg, "congruence" if share == 0.0 else "congruence-shared-components"
+
+
+def gen_congruence_shared(rng):
+    return gen_congruence(rng, share=0.5)
 
 
 def gen_truth(rng):
@@ -398,8 +405,8 @@ def pick_order(rng):
 def build_inputs(ctx, count):
     rng = ctx.rng
     lines, classes, expects = [], [], []
-    gens = [(gen_random, 0.30), (gen_cyclic, 0.09), (gen_packed, 0.14), (gen_k2like, 0.11), (gen_truth, 0.24),
-            (gen_congruence, 0.12)]
+    gens = [(gen_random, 0.28), (gen_cyclic, 0.09), (gen_packed, 0.14), (gen_k2like, 0.11), (gen_truth, 0.22),
+            (gen_congruence, 0.10), (gen_congruence_shared, 0.06)]
     seen = set()
     while len(lines) < count:
         r = rng.random()
